@@ -1,6 +1,7 @@
 package main
 
 import (
+	"fmt"
 	"os"
 	"path/filepath"
 	"strings"
@@ -180,7 +181,18 @@ func TestInlinerSmoke(t *testing.T) {
 	if fi == nil {
 		t.Fatal("Caller not found in the expanded program")
 	}
-	if pos := cur.Pos(fi.Decl); !strings.HasSuffix(pos, "demo/demo.go:83") {
-		t.Errorf("position of Caller maps to %s, want demo/demo.go:83", pos)
+	lineOf := func(marker string) int {
+		return strings.Count(inlSrc[:strings.Index(inlSrc, marker)], "\n") + 1
 	}
+	for _, name := range []string{"Caller", "Forward"} {
+		f := cur.Func("demo", name)
+		if f == nil {
+			t.Fatalf("%s not found in the expanded program", name)
+		}
+		want := fmt.Sprintf("demo/demo.go:%d", lineOf("func "+name))
+		if pos := cur.Pos(f.Decl); !strings.HasSuffix(pos, want) {
+			t.Errorf("position of %s maps to %s, want %s", name, pos, want)
+		}
+	}
+	_ = fi
 }
